@@ -244,6 +244,32 @@ func c03CtxAgreement(p *Prog, r *Report, rule string) {
 			return true
 		})
 	}
+	// the assertion may sit in a generic helper (txnValue[T](ctx)): the type DB asks for is the type argument of
+	// its call
+	if tp, isTP := askedVal.(*types.TypeParam); isTP {
+		ast.Inspect(db.Decl.Body, func(x ast.Node) bool {
+			c, ok := x.(*ast.CallExpr)
+			if !ok {
+				return true
+			}
+			var id *ast.Ident
+			switch f := ast.Unparen(c.Fun).(type) {
+			case *ast.Ident:
+				id = f
+			case *ast.IndexExpr:
+				id, _ = ast.Unparen(f.X).(*ast.Ident)
+			case *ast.IndexListExpr:
+				id, _ = ast.Unparen(f.X).(*ast.Ident)
+			}
+			if id == nil {
+				return true
+			}
+			if inst, ok := dinfo.Instances[id]; ok && inst.TypeArgs != nil && tp.Index() < inst.TypeArgs.Len() {
+				askedVal = inst.TypeArgs.At(tp.Index())
+			}
+			return true
+		})
+	}
 	if storedKey == nil || askedKey == nil {
 		r.Undecided(rule, "badger.Manager#ctx-txn", p.pos(run.Decl), "context.WithValue / ctx.Value(...).(T) not found")
 		return
